@@ -32,7 +32,7 @@ ASSUMPTIONS = [
     "T is exercised for ndim <= 2 only (documented: transpose() without arguments needs explicit dims for ndim > 2)",
     "broadcast targets contain all of the array's non-singleton dimensions with the same labels (documented usage)",
 ]
-MANDATORY = ["broadcast:empty-target-axis", "broadcast:omits-singleton", "transpose", "swapaxes", "rollaxis", "newaxis", "newaxis:values", "squeeze", "repeat", "broadcast", "broadcast_arrays",
+MANDATORY = ["swapaxes:negative-positions", "broadcast:empty-target-axis", "broadcast:omits-singleton", "transpose", "swapaxes", "rollaxis", "newaxis", "newaxis:values", "squeeze", "repeat", "broadcast", "broadcast_arrays",
              "square-equal-labels", "composition", "ndim:4", "ndim:0"]
 
 ATTRS = {"units": "m", "hist": [1, {"k": 2}], "_FillValue": -999, "max": 3}        # (any key may be metadata: underscore names, names of methods)
@@ -169,6 +169,13 @@ def run_case(case):
                 what = "swapaxes[%s](%s, %s) dims=%s labels=%s" % (fname, dims[i], dims[j], dims, labels)
                 res = lib(f, what=what, sig={"op": "swapaxes"})
                 expect(res, src, pd, [lab_of[d] for d in pd], [], what, {"op": "swapaxes"})
+            # negative positions count from the end (NumPy's convention, as in transpose and rollaxis)
+            for fname, f in (("negative positions", lambda: a.swapaxes(i - nd, j - nd)), ("negative position, name", lambda: a.swapaxes(i - nd, dims[j])),
+                             ("position, negative position", lambda: a.swapaxes(i, j - nd))):
+                what = "swapaxes[%s](%s, %s) dims=%s labels=%s" % (fname, dims[i], dims[j], dims, labels)
+                res = lib(f, what=what, sig={"op": "swapaxes"})
+                expect(res, src, pd, [lab_of[d] for d in pd], [], what, {"op": "swapaxes"})
+                cl.add("swapaxes:negative-positions")
             back = lib(lambda: a.swapaxes(i, j).swapaxes(i, j), what="swapaxes twice", sig={"op": "swapaxes"})
             expect(back, src, dims, labels, [], "swapaxes(%d,%d) twice dims=%s" % (i, j, dims), {"op": "swapaxes"})
             done("swapaxes", [i, j], i != j)
